@@ -32,8 +32,8 @@ def st_case(draw) -> Dict[str, Any]:
     # in the cell where every link out of it starts. a "fan" asks for all of those destinations in turn from a few origins
     fans = draw(st.lists(st.tuples(st.integers(0, 1000), st.lists(st.integers(0, 1000), min_size=1, max_size=3), st.integers(0, 50)).map(list), max_size=3))
     # the location resolution is configuration (sim_h3_resolution, default 15): coarser grids put the two ends of short
-    # links into one cell
-    return {"net": net, "graph": g, "pairs": pairs, "fans": fans, "res": draw(st.sampled_from([15, 15, 15, 13, 12])) if net != "hav" else 15}
+    # links into one cell (9-11: whole blocks share a cell, and cell-centre distances differ visibly from coordinate distances)
+    return {"net": net, "graph": g, "pairs": pairs, "fans": fans, "res": draw(st.sampled_from([15, 15, 15, 13, 12, 11, 10, 9])) if net != "hav" else 15}
 
 
 def check_case(case: Dict[str, Any]) -> Tuple[List[Violation], Set[str], Dict[str, int]]:
